@@ -6,7 +6,9 @@ from .refmodel import SidModel
 from .trees import TreeSet
 from .existmodel import AllModel
 
-TREE_NAMES = ["a", "a-b", "a.b", "a+b", "ab", "b", "oph", "ophelia", "x_rig", "B", "rig"]
+# (unicode: decomposed e + U+0301, a non-BMP first character; an upper-case twin; a name ending like a sidecar; an interior line break)
+TREE_NAMES = ["a", "a-b", "a.b", "a+b", "ab", "b", "oph", "ophelia", "x_rig", "B", "rig",
+              "cafe\u0301", "\U0001F600hero", "Ophelia", "x.data.json", "a\nb"]
 
 
 class Lab:
